@@ -83,6 +83,8 @@ def cop(o):
         return 'EndMC'
     if k == 'tok':
         return '(Tok %s)' % zlit(o[1])
+    if k == 'rb':
+        return '(Rollback %d%%nat %d%%nat %d%%nat)' % (o[1], o[2], o[3])
     raise ValueError(o)
 
 
@@ -129,10 +131,14 @@ def cout(o):
 
 
 def ccase(c, o):
-    return '(%s, %s, %s, %s)' % (cb(c['mark']), clist(ckey(k) for k in c['keys0']), clist(cop(x) for x in c['ops']), cout(o))
+    # the calls as executed (checkpoints resolved to the lengths they returned) and the calls that are kept
+    ops = (o or {}).get('ops', c['ops'])
+    kops = c.get('kops', ops)
+    return '(%s, %s, %s, %s, %s)' % (cb(c['mark']), clist(ckey(k) for k in c['keys0']), clist(cop(x) for x in ops),
+                                     clist(cop(x) for x in kops), cout(o))
 
 
-CASE_T = 'bool * list key * list op * option implout'
+CASE_T = 'bool * list key * list op * list op * option implout'
 
 # ------------------------------------------------------------------------------- generators of call sequences
 
@@ -224,11 +230,45 @@ FIXED_SEQS = [
 ]
 
 
+def gen_failed_prog(rng, n):
+    """well-bracketed calls with failed drawings inside, as SVGImage.draw makes them: checkpoint, push_state, calls
+    interrupted anywhere before (or at) the matching pop_state, rollback.  Returns (ops, kept ops)."""
+    base = gen_ops(rng, n, True, rng.choice([None, 'peephole']))
+    # positions outside text objects
+    spots, depth_text = [], False
+    for i, o in enumerate(base + [['end']]):
+        if not depth_text:
+            spots.append(i)
+        if o[0] == 'bt':
+            depth_text = True
+        elif o[0] == 'et':
+            depth_text = False
+    ops, last, ncp = [], 0, 0
+    for pos in sorted(rng.sample(spots, min(len(spots), rng.choice([1, 1, 2, 3])))):
+        ops += base[last:pos]
+        last = pos
+        inner = [['push']] + gen_ops(rng, rng.choice([0, 2, 6, 15]), True, rng.choice([None, 'raw'])) + [['pop']]
+        cut = rng.choice([1, len(inner), rng.randrange(1, len(inner) + 1), rng.randrange(1, len(inner) + 1)])
+        ops += [['cp']] + inner[:cut] + [['rb', ncp]]
+        ncp += 1
+    ops += base[last:]
+    return ops, base
+
+
 def check_stream_direct(run, rng, n):
     cases = []
     for ops in FIXED_SEQS:
         for mark in (False, True):
             cases.append({'mark': mark, 'keys0': [], 'ops': ops})
+    for _ in range(n // 5):
+        ops, kops = gen_failed_prog(rng, rng.choice([3, 8, 20, 50]))
+        cases.append({'mark': rng.random() < 0.4, 'keys0': rng.choice([[], [], ['a1.0'], ['a0.5', 's1', 'A1']]), 'ops': ops, 'kops': kops})
+    for _ in range(n // 12):
+        # checkpoints and rollbacks anywhere (not what the source does): the model must still follow
+        ops = gen_ops(rng, rng.choice([6, 12, 30]), rng.random() < 0.5, None)
+        for _ in range(rng.choice([1, 2, 4])):
+            ops.insert(rng.randrange(len(ops) + 1), rng.choice([['cp'], ['cp'], ['rb', rng.randrange(4)]]))
+        cases.append({'mark': rng.random() < 0.4, 'keys0': rng.choice([[], ['s0'], ['a1', 's7']]), 'ops': ops})
     while len(cases) < n:
         r = rng.random()
         wf = r < 0.8
@@ -333,7 +373,8 @@ def gen_svg(rng, size=40):
         if rng.random() < 0.25:
             a += " opacity='%s'" % rng.choice(['.5', '0', '1', '.25'])
         if rng.random() < 0.2:
-            a += " fill-opacity='%s'" % rng.choice(['.5', '0', '1'])
+            # 'x' makes alpha_value raise in the middle of the drawing: the SVG must leave nothing behind (F66 fixed)
+            a += " fill-opacity='%s'" % rng.choice(['.5', '0', '1', '.5', '0', '1', 'x'])
         if rng.random() < 0.2:
             a += " stroke-opacity='%s'" % rng.choice(['.5', '1'])
         if rng.random() < 0.25:
@@ -370,8 +411,9 @@ def gen_svg(rng, size=40):
             d = rng.choice([
                 'M 2 2 L 30 5 L 20 30 z', 'M5,5 h20 v20 h-20 z', 'M 5 20 C 10 0, 20 0, 30 20 S 35 35 20 30',
                 'M 5 5 Q 20 0 30 20 T 10 30', 'M 10 10 A 8 8 0 1 1 25 25', 'M 1 1', 'M 3 3 l 5 0 m 2 2 l 5 5'])
-            # a marker with orient=auto on a single-vertex path raises inside draw_markers (swallowed: finding F28)
-            if rng.random() < 0.4 and d != 'M 1 1':
+            # (a marker with orient=auto on the single-vertex path raises inside draw_markers: the drawing is erased by
+            # Stream.rollback since the fix of F66; kept in the grammar)
+            if rng.random() < 0.4:
                 k = nid('k')
                 defs.append("<marker id='%s' markerWidth='6' markerHeight='6' refX='3' refY='3'%s><circle cx='3' cy='3' r='2'%s/></marker>" % (
                     k, rng.choice(['', " orient='auto'", " viewBox='0 0 6 6'", " markerUnits='userSpaceOnUse'"]), attrs()))
@@ -576,8 +618,8 @@ def gen_content(rng, depth, ctx):
 
 
 def gen_doc(rng, opts):
-    """Returns (html, expectation dict).  The grammar avoids the open defect site F66 (an SVG that raises while
-    being drawn) and the crash sites listed in the C16 report (C02 findings)."""
+    """Returns (html, expectation dict).  SVGs that raise while they are drawn (former finding F66) are part of the
+    grammar; the crash sites still avoided are the C02 findings listed in the C16 report."""
     W, H = rng.choice([(200, 150), (300, 200), (120, 400), (500, 500), (64, 64), (333, 77)])
     bleed = rng.choice([0, 0, 0, 5, 12, 30])
     marks = rng.choice(['', '', 'crop', 'cross', 'crop cross']) if bleed else ''
@@ -975,6 +1017,8 @@ def tcop(o):
         return '(ExtState %s)' % cgsval(o[1], o[2])
     if k == 'xalpha':
         return '(ExtAlpha %s %s %s)' % (cb(o[1]), zlit(o[2]), cb(o[3]))
+    if k == 'rb':
+        return '(Rollback %d%%nat %d%%nat %d%%nat)' % (max(0, o[1]), o[2], o[3])
     raise ValueError(o)
 
 
@@ -1009,10 +1053,11 @@ def tctok(t):
 
 def ctrace(tr):
     d0 = clist('(%s, %s)' % (tkey(k[:-2]), cgsval(k[-2], k[-1])) for k in tr['keys0'])
-    return '(%s, %s, %s, %s)' % (cb(tr['mark']), d0, clist(tcop(o) for o in tr['ops']), clist(tctok(t) for t in tr['toks']))
+    return '(%s, %s, %s, %s, %s)' % (cb(tr['mark']), d0, clist(tcop(o) for o in tr['ops']),
+                                     clist(tcop(o) for o in tr.get('kops', tr['ops'])), clist(tctok(t) for t in tr['toks']))
 
 
-TRACE_T = 'bool * egsd * list op * list tok'
+TRACE_T = 'bool * egsd * list op * list op * list tok'
 UNMODELLED = ('list-replaced', 'foreign-append', 'nonempty-at-start', 'odd-item')
 
 
@@ -1473,10 +1518,8 @@ def ast_pass(repo):
 
 # ======================================================================================== the check itself
 
-# Open finding F66 (known_findings.json, signature 'svg-exception-unbalanced-q'): SVGImage.draw swallows an exception
-# raised while the SVG is drawn; what was pushed so far stays open in the content stream.  Probed by one dedicated
-# witness; the random grammar avoids the triggers.  The other witnesses are regression probes of fixed findings.
-F66 = 'svg-exception-unbalanced-q'
+# Regression probes of the findings of this property, all fixed in /repo (F12 twice, F29, F66): each must render to a
+# well-formed PDF; for F66 the drawing that raises must leave nothing in the stream (Stream.checkpoint / rollback).
 WITNESSES = {
     # name: (signature or None, case)
     'F12-mask-border(fixed 081cf63)': (None, {
@@ -1496,10 +1539,14 @@ WITNESSES = {
     'font-of-invisible-run-stays-in-Font-dictionary': (None, {
         'html': '<style>@page{size:200px 100px;margin:0}body{margin:0;font-size:20px;font-family:DejaVu Sans}span{font-family:weasyprint}</style>'
                 '<p>abc<span>&#x200b;</span>def</p>', 'options': {'uncompressed_pdf': True}, 'record': False}),
-    'F66-svg-marker-on-single-vertex-path': (F66, {
+    'F66-svg-bad-fill-opacity(fixed 5f13d7d)': (None, {
+        'html': '<style>@page{size:100px;margin:0}body{font-family:weasyprint;font-size:10px;margin:0}</style>abc<img src="data:image/svg+xml,'
+                '<svg xmlns=\'http://www.w3.org/2000/svg\' width=\'20\' height=\'20\'><text y=\'9\' font-size=\'8\'>a</text>'
+                '<rect width=\'10\' height=\'10\' fill-opacity=\'x\'/></svg>">def', 'options': {'uncompressed_pdf': True}, 'record': True}),
+    'F66-svg-marker-on-single-vertex-path(fixed 5f13d7d)': (None, {
         'html': '<style>@page{size:100px;margin:0}</style><img src="data:image/svg+xml,<svg xmlns=\'http://www.w3.org/2000/svg\' width=\'40\' height=\'40\'>'
                 '<defs><marker id=\'k\' markerWidth=\'6\' markerHeight=\'6\' orient=\'auto\'><circle cx=\'3\' cy=\'3\' r=\'2\'/></marker></defs>'
-                '<path d=\'M 1 1\' marker-end=\'url(%23k)\'/></svg>">', 'options': {'uncompressed_pdf': True}, 'record': False}),
+                '<path d=\'M 1 1\' marker-end=\'url(%23k)\'/></svg>">', 'options': {'uncompressed_pdf': True}, 'record': True}),
 }
 
 
@@ -1514,13 +1561,9 @@ def classify_doc(run, case, st, o, stream):
         run.fail('render raised %s at %s: %s' % (o['type'], o['site'], o['msg'][:120]), dict(small, exc=o),
                  signature='crash:%s' % (o['site'],))
         return None
-    for site in o.get('swallowed') or []:
-        run.fail('an exception raised while drawing an SVG was swallowed (%s): what was pushed so far stays open in the stream' % site,
-                 dict(small, site=site), signature='crash:svg:%s' % site)
-    swallowed = bool(o.get('swallowed'))
+    # an SVG whose drawing raises is logged and erased (Stream.rollback, fix of F66): the output must be as well formed as
+    # any other; the judge below does not know that something was swallowed
     for clause, detail in o['bad'][:3]:
-        if swallowed and clause.startswith(('balance', 'nest', 'special-gs', 'text-op')):
-            continue                      # consequence of the swallowed exception, reported above
         run.fail('PDF not well formed: %s: %s' % (clause, detail), dict(small, clause=clause, detail=detail),
                  signature='pdf:%s' % clause)
     return o
@@ -1555,7 +1598,7 @@ def check(run):
                     'harness/pdfread.py (independent PDF reader, ISO 32000-1 Annex A operator table) and the judges of harness/p_c16.py (Python)',
                     'harness/impl_c16.py: decoding of Stream.stream items into model tokens; the call recorder (wraps the methods of weasyprint.pdf.stream.Stream in the worker process)',
                     'pydyf (not in the repository): its one-item-per-call emitters are exercised as `Tok k`; file syntax (header, xref, trailer) is monitored, not modelled']
-    run.assumptions += ['no exception is swallowed between a paired push_state/pop_state or begin_text/end_text (the AST pass lists the two places where one is: SVGImage.draw and suppress(PointError) in svg draw_node; open finding F66)',
+    run.assumptions += ['an exception swallowed around drawing calls is either rolled back (SVGImage.draw: checkpoint/rollback, theorems C16_*_with_failed_drawings, exercised by the monitor) or raised by a call that opens no bracket (suppress(PointError) around one shape in svg draw_node); the AST pass lists these two places',
                         'content of fonts, images and attachments is judged by decodability only (font tables: C16 partial)',
                         'reference interpreter: fill/stroke colour, alpha constants, font, CTM, text matrix, q/Q stack; dash, line width, clip, blend mode and soft mask are not cached by Stream and therefore not part of skip soundness']
 
@@ -1633,11 +1676,7 @@ def check(run):
         reproduced = False
         data = {'stream': 'witness', 'name': name, 'html': case['html'], 'options': case['options']}
         if st == 'ok':
-            if o.get('swallowed'):
-                reproduced = True
-                run.fail('witness %s: exception swallowed while drawing an SVG (%s); %s' % (name, o['swallowed'][0], o['bad'][:1]), data,
-                         signature=sig or 'crash:svg:%s' % o['swallowed'][0])
-            elif o['bad']:
+            if o['bad']:
                 reproduced = True
                 run.fail('witness %s: %s' % (name, o['bad'][0]), data, signature=sig or 'pdf:%s' % o['bad'][0][0])
             if sig is None:
@@ -1646,8 +1685,9 @@ def check(run):
             run.fail('witness %s: render failed: %s' % (name, o), data, signature='crash:%s' % (o and o.get('site'),))
         witness_state[name] = reproduced
     run.count('witness', len(wit_cases), [('w', n) for n in WITNESSES])
-    run.stream_info('witness', rule='minimal documents of the findings of this property: regression probes of the fixed ones, '
-                    'the open one (F66) reported through its registered signature', reproduce=witness_state)
+    run.stream_info('witness', rule='minimal documents of the findings of this property, all fixed: regression probes (the two F66 '
+                    'documents do raise inside the SVG: the output must not show it)', reproduce=witness_state,
+                    svg_exceptions_swallowed={n: bool(o and st == 'ok' and o.get('swallowed')) for (n, _), (st, o) in zip(sorted(WITNESSES.items()), wouts)})
 
     _mark(run, '4')
     # ---- stream 4: monitor over the document grammar x options
@@ -1677,7 +1717,7 @@ def check(run):
                     'page margin boxes, bleed and marks) x options; every output parsed by harness/pdfread.py and judged: file '
                     'structure, references, page tree = rendered pages, MediaBox, content streams (balance, arity, operand types, '
                     'named resources in the dictionary in effect), compressed = uncompressed after decoding',
-                    option_combinations=len(optcov), variants=sorted({str(c['options'].get('pdf_variant')) for c in cases}), **agg)
+                    option_combinations=len(optcov), svg_drawings_that_raised=sum(len(v.get('swallowed') or []) for _, v in good), variants=sorted({str(c['options'].get('pdf_variant')) for c in cases}), **agg)
 
     _mark(run, '4b')
     # ---- stream 4b: documents about the closure of the /Font dictionaries
@@ -1738,14 +1778,14 @@ def check(run):
             ntm += 0 if m & 32 else 1
             if m & 128:
                 run.fail('merging ET BT changed where text is shown (text matrix not set again)', data, signature='stream:merge-unsound')
-            if m & 16 and not o.get('swallowed'):
+            if m & 16:
                 run.fail('the draw code made a call sequence that is not well bracketed on stream #%d of the document' % tr['index'],
                          dict(data, ops=tr['ops'][:300]), signature='calls-not-well-bracketed')
             if m & 64:
                 run.oblige('traces:initial-ExtGState-well-formed', False, json.dumps(tr['keys0']))
         run.count('stream-traces', len(items), [('trace', len(tr['ops']), tuple(o[0] for o in tr['ops'][:8])) for _, tr in items],
                   samples=[{'ops': items[0][1]['ops'][:25]}] if items else [])
-        run.stream_info('stream-traces', ops=sum(len(tr['ops']) for _, tr in items), well_bracketed=nwb, tm_disciplined=ntm,
+        run.stream_info('stream-traces', ops=sum(len(tr['ops']) for _, tr in items), with_rollback=sum(1 for _, tr in items if tr.get('rollbacks')), well_bracketed=nwb, tm_disciplined=ntm,
                         not_modelled=skipped, rule='every Stream object of every third monitored document (pages, opacity groups, '
                         'patterns, masks, form fields): API calls recorded in the worker, replayed in the Coq model, compared with '
                         'Stream.stream; wb/guarded/tm_disciplined premises and same_rendering evaluated on them')
@@ -1763,7 +1803,7 @@ def check(run):
         masks = common.eval_cases('c16sk', PRE, 'list nat', [clist('%d%%nat' % x for x in s) for s in keys], 'skeleton_judge', per_file=250) if keys else []
         for s, m in zip(keys, masks):
             c, v = good[uniq[s]]
-            if m and not v.get('swallowed'):
+            if m:
                 run.fail('content stream skeleton rejected by the Coq specification (mask %d)' % m,
                          {'stream': 'skeleton', 'html': c['html'], 'options': c['options'], 'zoom': c['zoom'], 'skeleton': list(s)[:400]}, signature='pdf:balance(coq)')
         run.count('skeleton', len(sk), [('sk', hash(s)) for s in keys])
@@ -1806,7 +1846,7 @@ def replay(data):
             print('replay: render %s: %s' % (st, o))
             return 1
         print('replay: bad =', o['bad'][:5], 'swallowed =', o.get('swallowed'))
-        rc = 1 if (o['bad'] or o.get('swallowed')) else 0
+        rc = 1 if o['bad'] else 0
         items = [(0, tr) for tr in o.get('traces') or [] if not [f for f in tr['flags'] if f in UNMODELLED or f.startswith(('unmodelled', 'raised'))]]
         if items:
             masks = common.eval_cases('c16replay', PRE, TRACE_T, [ctrace(tr) for _, tr in items], 'trace_judge', per_file=60)
